@@ -83,8 +83,18 @@ def _length(repo, col, fi, ex):
     rads = [s for s in st if s.key.name == "radius"]
     swc = next((s for s in rads if T.find(s.value, lambda x: x.op == "call" and x.name == "build_radiuses_from_xyzr") is not None), None)
     const = next((s for s in rads if s is not swc), None)
+    # every documented parameter of set_ncomp must take effect
+    used = {n.id for n in ast.walk(fi.node) if isinstance(n, ast.Name) and isinstance(n.ctx, ast.Load)}
+    for p_ in fi.params[1:]:
+        col.check(p_ in used, R, fi, f"set_ncomp: parameter `{p_}` takes effect", "used",
+                  f"parameter `{p_}` of set_ncomp is accepted but never used: `set_ncomp(n, {p_}=...)` silently ignores it "
+                  f"(e.g. SWC radii are no longer clipped at min_radius)", node=fi.node)
     if swc is None or const is None:
-        raise AnalysisError("set_ncomp: the two radius branches were not found")
+        col.add(R, fi, "SWC radius: build_radiuses_from_xyzr(radius fns of the cell, this branch, min_radius, requested ncomp)",
+                "UNDECIDED" if "min_radius" in used else "VIOLATED",
+                "the SWC radius profile is not rebuilt through build_radiuses_from_xyzr (the function read_swc uses): the "
+                "re-discretised branch does not get the radii a directly built module gets", node=fi.node)
+        return
     call = T.find(swc.value, lambda x: x.op == "call" and x.name == "build_radiuses_from_xyzr")
     tgt = repo.func("jaxley/utils/cell_utils.py", "build_radiuses_from_xyzr").params
     bound = dict(zip(tgt, call.args))
@@ -166,6 +176,26 @@ def _rows(repo, col, fi, ex):
         detail = f"before={sa_}, after={sc}"
     col.check(ok, R, fi, "rows before the branch / the new rows / rows after the branch, in this order",
               "concat([all.iloc[:start], new, all.iloc[start:]]) after dropping the old rows", f"node table is rebuilt as {detail}", node=st.node)
+    # the insertion row is the global compartment index of the branch's first compartment
+    from sa.spaces import Classifier
+    sx = next((n for n in walk_no_nested(fi.node) if isinstance(n, ast.Assign) and isinstance(n.targets[0], ast.Name)
+               and n.targets[0].id == "start_idx"), None)
+    if sx is None:
+        col.unk(R, fi, "insertion row of the new compartments", "start_idx not found", node=fi.node)
+    else:
+        t = ex.term(sx.value)
+        sp = Classifier({}).space(t, "node")
+        from_view = T.find(t, lambda x: x.op == "attr" and x.name == "nodes" and x.args[0].op == "param") is not None
+        uniform = T.find(t, lambda x: x.op == "binop" and x.name == "*" and
+                         T.find(x, lambda y: y.op == "attr" and y.name in ("_branches_in_view",) or
+                                (y.op == "const" and y.name == "global_branch_index")) is not None) is not None
+        ok = sp is not None and sp.s == "N" and from_view
+        col.add(R, fi, "insertion row = global index of the first compartment of the branch in view",
+                "DISCHARGED" if ok else ("VIOLATED" if uniform else "UNDECIDED"),
+                "first global_comp_index of the view" if ok else
+                f"the insertion row is computed as {t.short(80)}: a branch index times a compartment count is the first compartment "
+                f"only if all earlier branches have that many compartments; otherwise rows of another branch are replaced",
+                node=sx)
     dr = T.find(v, lambda x: x.op == "mcall" and x.name == "drop")
     ok = False
     if dr is not None:
